@@ -5,11 +5,14 @@ import (
 	"crypto"
 	stded "crypto/ed25519"
 	"crypto/sha512"
+	"encoding/binary"
 	"fmt"
 	"io"
 	"math/big"
+	"runtime"
 	"sort"
 	"strings"
+	"sync"
 
 	"github.com/oasisprotocol/ed25519"
 	"github.com/oasisprotocol/ed25519/verifharness/hx"
@@ -262,6 +265,78 @@ func runSign() {
 			if i%16 == 0 {
 				all = append(all, s)
 			}
+		}
+	}
+
+	// ---- pattern hunt: honest signatures whose R or S bytes are extreme (thin slices a verifier-side strictness bug would hit) ---
+	if (prop == "C03" || prop == "") && *fCfg == "default" {
+		tries := 1500000
+		if thorough {
+			tries = 12000000
+		}
+		hseed := r.Bytes(32)
+		hpriv := sNewKey(tr, hseed)
+		type hit struct {
+			msg []byte
+			why string
+		}
+		hits := make(chan hit, 1024)
+		var wg sync.WaitGroup
+		nw := runtime.NumCPU()
+		for w := 0; w < nw; w++ {
+			wg.Add(1)
+			go func(w int) {
+				defer wg.Done()
+				defer func() { recover() }()
+				msg := make([]byte, 12)
+				for i := w; i < tries; i += nw {
+					binary.LittleEndian.PutUint64(msg, uint64(i))
+					sg := ed25519.Sign(hpriv, msg)
+					if len(sg) != 64 {
+						return
+					}
+					why := ""
+					switch {
+					case sg[31]&0x7f == 0x7f && sg[30] == 0xff:
+						why = "R: top 15 bits of y set"
+					case sg[31]&0x7f == 0 && sg[30] == 0:
+						why = "R: top 15 bits of y clear"
+					case sg[0] == 0xff && sg[1] == 0xff:
+						why = "R: low 16 bits set"
+					case sg[0] == 0 && sg[1] == 0:
+						why = "R: low 16 bits clear"
+					case sg[63] == 0x0f && sg[62] >= 0xf0:
+						why = "S: just below 2^252"
+					case sg[63] == 0 && sg[62] == 0:
+						why = "S: below 2^240"
+					case sg[32] == 0xff && sg[33] == 0xff:
+						why = "S: low 16 bits set"
+					case sg[32] == 0 && sg[33] == 0:
+						why = "S: low 16 bits clear"
+					case sg[15] == 0xff && sg[16] == 0xff && sg[17]&0x0f == 0x0f:
+						why = "R: run of ones across the middle limb boundary"
+					case sg[47] == 0 && sg[48] == 0 && sg[49]&0x0f == 0:
+						why = "S: run of zeros across the middle limb boundary"
+					}
+					if why != "" {
+						hits <- hit{append([]byte{}, msg...), why}
+					}
+				}
+			}(w)
+		}
+		go func() { wg.Wait(); close(hits) }()
+		var found []hit
+		for h := range hits {
+			found = append(found, h)
+		}
+		sort.Slice(found, func(a, b int) bool { return bytes.Compare(found[a].msg, found[b].msg) < 0 })
+		perWhy := map[string]int{}
+		for _, h := range found {
+			if perWhy[h.why] >= 16 {
+				continue
+			}
+			perWhy[h.why]++
+			all = append(all, doSign(hseed, pairs[0], h.msg))
 		}
 	}
 
